@@ -26,13 +26,14 @@ D(e) == Tr.evs[e][2]
 \* a process started by a daemon event stays daemon: its continuations must not turn into primary
 \* events that keep an auto-terminating run alive (C01 clause f)
 ProcessFlagOK(e) == Tr.evs[e][3] => Tr.evs[e][2]
-R(e) == [t |-> T(e), c |-> e, d |-> D(e), x |-> e \in X]
+Z(e) == Tr.evs[e][4]       \* target crashed at the event's timestamp (fault windows known to the harness)
+R(e) == [t |-> T(e), c |-> e, d |-> D(e), x |-> e \in X, z |-> Z(e)]
 Recs(S) == { R(e) : e \in S }
 
 Init == ti = 1 /\ l = 1 /\ P = {} /\ X = {} /\ clock = 0 /\ cur = 0 /\ done = {} /\ bad = ""
 
 \* a popped event that never reached invoke was discarded by the engine: it must not be live
-LostCur == cur # 0 /\ cur \notin X /\ T(cur) >= clock
+LostCur == cur # 0 /\ cur \notin X /\ T(cur) >= clock /\ ~Z(cur)
 
 DeliverVerdict(e, now) ==
     IF e # cur THEN "MODEL:invoke_without_pop"
